@@ -1,7 +1,8 @@
 """C13 — per-property knobs of ./check (see DESIGN.md §6 C13, notes/C13.md)."""
 THEOREMS_TIED = ["Rustic.Props.C13.treeStreamerOnce_any_order", "Rustic.Props.C13.treeStreamerOnce_terminates",
                  "Rustic.Props.C13.every_written_pack_indexed", "Rustic.Props.C13.stored_set_schedule_independent",
-                 "Rustic.Props.C13.treeId_independent_of_index", "Rustic.Props.C13.pipeline_progress"]
+                 "Rustic.Props.C13.treeId_independent_of_index", "Rustic.Props.C13.pipeline_progress",
+                 "Rustic.Props.C13.network_progress", "Rustic.Props.C13.archiver_network_progress"]
 
 TRUSTED = [
     "hand-written nondeterministic models lean/Rustic/Model/Streamer.lean (TreeStreamerOnce, channel line) and Model/Archive.lean part 2 (packer / file writer / indexer events)",
@@ -10,7 +11,7 @@ TRUSTED = [
 ]
 ASSUMPTIONS = [
     "PARTIAL: the theorems quantify over all schedules of the MODELS; for the real threads the harness samples schedules (seeded latencies at backend calls, pack sizes from one blob per pack to the default); thread-pool sizes are not varied (global pools)",
-    "the channel-line progress theorem is about a line of bounded buffers with a consuming sink (the shape of Packer::new / Actor::new), not about crossbeam itself",
+    "the progress theorems are about a line (Packer::new / Actor::new) and a DAG network (Archiver::archive: workers fanning out to the data packer and the ordered output queue, main thread feeding the tree packer) of bounded buffers with consuming sinks, not about crossbeam/pariter themselves",
     "tree loads that fail end the stream with an error (outside the streamer model); the `chk` op covers that path on the real code",
 ]
 RULE = ("ops from harness/src/c13.rs, one splitmix64 PRNG (VERIF_SEED): `stream` = random DAG forests of 1-14 trees (0-3 sub-trees each, shared), 0-3 roots (duplicates), read latencies 0-3 ms by seed; "
@@ -18,7 +19,7 @@ RULE = ("ops from harness/src/c13.rs, one splitmix64 PRNG (VERIF_SEED): `stream`
         "`hist` = backup A, parent-based backup B, forget A, prune (instant delete, repack) under the same variations; `chk` = check --read-data with a missing tree and 250 ms pack reads. "
         "Non-trivial = a stream that yields >= 2 trees or any run/hist/chk op; distinct by hash of (op, observation).")
 EXPLANATION = ("Theorems (all schedules of the models): TreeStreamerOnce yields exactly the reachable trees once each, ends iff nothing is outstanding (no deadlock, no early end), terminates within |reachable| steps; "
-               "every written pack is indexed at finalize; stored key set independent of flush points and delays; root tree id independent of the index contents; the channel line always has an enabled stage and a "
+               "every written pack is indexed at finalize; stored key set independent of flush points and delays; root tree id independent of the index contents; the channel line — and the archiver's whole channel network (any DAG of bounded buffers) — always has an enabled stage and a "
                "decreasing measure. Correspondence/oracles on the real code: yielded tree set = model's under seeded read latencies; repeated runs give identical tree id and referenced blob set, terminate "
                "(watchdog), leave storage = index, pass check --read-data and read back as the source.")
 
